@@ -4,6 +4,7 @@ import (
 	"go/ast"
 	"go/token"
 	"go/types"
+	"sort"
 	"strings"
 
 	"golang.org/x/tools/go/ssa"
@@ -24,7 +25,7 @@ func init() {
 		Technique: "load-path panic reachability over the module call graph + shape-check dominance (every successful return dominated by each comparison of saved and rebuilt shape) + canonical-archive structure",
 		Explanation: "Decides: (1) no explicit panic/log.Panic/log.Fatal/os.Exit and no unchecked type assertion is reachable from any LoadCheckpoint, UnmarshalJSON of checkpointed types, the archive reader or the codec's decode path, except the allow-listed spec-hash marshal failure (it depends on the rebuilt Spec, not on the archive) and Buffer.Restore where every call on a load path is dominated by a length-against-capacity test; " +
 			"(2) in each LoadCheckpoint every `return nil` is dominated by the passing branch of each required shape comparison (spec hash; capacity of the buffer being restored; storage capacity and unit size; log2 page size; generator kind; empty queues; known handler for every decoded event; build id; entity coverage in both directions) and the failing branch returns an error; " +
-			"(3) the archive writer iterates a sorted copy, rejects duplicates, and writes only constant ModTime/Mode header fields; no wall-clock/random source in any SaveCheckpoint closure; (4) fresh decode targets as in C06.",
+			"(3) the archive writer iterates a sorted copy, rejects duplicates, and writes only constant ModTime/Mode header fields; no wall-clock/random source in any SaveCheckpoint closure; (restore-loop-total) a loop on a load path that deposits decoded entries into the restored object deposits on every iteration it completes (no saved entry is skipped, so save/load/save cannot shrink); (4) fresh decode targets as in C06.",
 		NotDecided:  "byte identity of real archives; behaviour of compress/gzip and archive/tar; implicit panics on arithmetic over decoded integers (none of the load paths indexes or divides by a decoded value today — checked by the unchecked-assertion and index audit only for explicit forms).",
 		Assumptions: []string{"encoding/json and the standard archive packages return errors rather than panic on malformed input"},
 	}, runC07)
@@ -624,6 +625,14 @@ func runC07(c *Ctx) {
 		return strings.HasSuffix(pp, "/simulation") || strings.HasSuffix(pp, "/timing") || strings.HasSuffix(pp, "/modeling") || strings.HasSuffix(pp, "/messaging") || strings.HasSuffix(pp, "/mem") || strings.HasSuffix(pp, "/mem/vm") || strings.HasSuffix(pp, "/internal/codec")
 	}, 4)
 	// (4)
+	var loadFns []*ssa.Function
+	for fn := range reach {
+		if fn.Pkg != nil && strings.HasPrefix(fn.Pkg.Pkg.Path(), ModPath) && !clientPkg(fn.Pkg.Pkg.Path()) {
+			loadFns = append(loadFns, fn)
+		}
+	}
+	sort.Slice(loadFns, func(i, j int) bool { return SSAFuncKey(loadFns[i]) < SSAFuncKey(loadFns[j]) })
+	restoreLoopTotalRule(c, "restore-loop-total", loadFns, 2)
 	freshDecodeRule(c, "fresh-decode-target")
 	symmetryRule(c, "save-load-symmetry")
 }
@@ -1075,4 +1084,119 @@ func savedCoversWrittenRule(c *Ctx, rule string, pred func(string) bool, floor i
 		}
 	}
 	c.Check(n >= floor, rule, "instances", 0, "checkpointed types inspected ("+itoa(n)+")", "fewer checkpointed types than expected were inspected")
+}
+
+// restoreLoopTotalRule: a loop of LoadCheckpoint that deposits decoded entries
+// into the receiver deposits on every iteration it completes: an iteration that
+// reaches the loop's back edge without having deposited anything has dropped a
+// saved entry, so the next SaveCheckpoint writes fewer entries than were loaded
+// and the archive is no longer a fixed point of save/load/save.
+func restoreLoopTotalRule(c *Ctx, rule string, fns []*ssa.Function, floor int) {
+	n := 0
+	for _, fn := range fns {
+		if len(fn.Blocks) == 0 || len(fn.Params) == 0 || fn.Synthetic != "" {
+			continue
+		}
+		// the restored object: the receiver, or for a plain helper any pointer parameter
+		targets := map[ssa.Value]bool{}
+		if fn.Signature.Recv() != nil {
+			targets[fn.Params[0]] = true
+		} else {
+			for _, pa := range fn.Params {
+				if _, isPtr := pa.Type().Underlying().(*types.Pointer); isPtr {
+					targets[pa] = true
+				}
+			}
+		}
+		isT := func(v ssa.Value) bool { return targets[memRoot(v)] }
+		deposit := func(in ssa.Instruction) bool {
+			switch x := in.(type) {
+			case *ssa.Store:
+				return isT(x.Addr)
+			case *ssa.MapUpdate:
+				return isT(x.Map)
+			case ssa.CallInstruction:
+				cc := x.Common()
+				if _, isB := cc.Value.(*ssa.Builtin); isB {
+					return false
+				}
+				if cc.IsInvoke() && isT(cc.Value) {
+					return true
+				}
+				for _, a := range cc.Args {
+					if _, isPtr := a.Type().Underlying().(*types.Pointer); isPtr && isT(a) {
+						return true
+					}
+				}
+			}
+			return false
+		}
+		for _, l := range loopsOf(fn) {
+			cut := map[*ssa.BasicBlock]bool{}
+			for b := range l.blocks {
+				for _, in := range b.Instrs {
+					if deposit(in) {
+						cut[b] = true
+					}
+				}
+			}
+			if len(cut) == 0 {
+				continue
+			}
+			n++
+			// is a back edge reachable from the header without crossing a deposit?
+			var skipAt *ssa.BasicBlock
+			if !cut[l.header] {
+				seen := map[*ssa.BasicBlock]bool{l.header: true}
+				work := []*ssa.BasicBlock{l.header}
+				for len(work) > 0 && skipAt == nil {
+					b := work[len(work)-1]
+					work = work[:len(work)-1]
+					for _, s := range b.Succs {
+						if s == l.header {
+							skipAt = b
+							break
+						}
+						if !l.blocks[s] || cut[s] || seen[s] {
+							continue
+						}
+						seen[s] = true
+						work = append(work, s)
+					}
+				}
+			}
+			why := ""
+			if skipAt != nil {
+				why = "the loop (" + posOfBlock(fn, l.header) + ") can finish an iteration (back edge from " + posOfBlock(fn, skipAt) + ") without depositing the decoded entry into the receiver: a saved entry is dropped by the load, so saving again does not reproduce the archive"
+			}
+			c.Check(why == "", rule, SSAFuncKey(fn)+"#loop@"+itoa(loopOrdinal(fn, l)), fn.Pos(), "every completed iteration deposits into the receiver", why)
+		}
+	}
+	_ = n
+	c.Floor(rule, floor)
+}
+
+// loopOrdinal numbers a loop by the order of its header block in the function.
+func loopOrdinal(fn *ssa.Function, l *loopInfo) int {
+	k := 0
+	for _, b := range fn.Blocks {
+		if b == l.header {
+			return k
+		}
+		for _, s := range b.Succs {
+			if s.Dominates(b) && s == b {
+				break
+			}
+		}
+		isHeader := false
+		for _, pb := range b.Preds {
+			if b.Dominates(pb) {
+				isHeader = true
+			}
+		}
+		if isHeader {
+			k++
+		}
+	}
+	return k
 }
